@@ -405,6 +405,24 @@ def run_case(case):
                 compare_listing(out, "own_config_listing", model(case, with_flags=False), own.get(PRECEDENCE[ep][0]), case, ep)
             except Exception as e:
                 out.fail_exc("config_listing_returns", e)
+        if ep.startswith("git-") and not mixed(ep):
+            # the git drivers / tools advertise --config on the top-level parser and on their diff / merge sub-command
+            import importlib
+            mod = importlib.import_module("nbdime.vcs.git." + {"git-nbdiffdriver": "diffdriver", "git-nbmergedriver": "mergedriver",
+                                                               "git-nbdifftool": "difftool", "git-nbmergetool": "mergetool"}[ep])
+            sub = "diff" if "diff" in ep else "merge"
+            for form, argv in (("top", ["--config"]), ("sub", [sub, "--config"])):
+                try:
+                    sys.argv[:] = [ep]
+                    text = run_listing(lambda: mod.main(list(argv)))
+                    if text.lstrip().startswith("usage:"):
+                        out.count("git_sub_command_without_--config_option")
+                        continue
+                    own = parse_listing(text)
+                    out.count("git_entry_point_config_listings_compared")
+                    compare_listing(out, "own_config_listing", model(case, with_flags=False), own.get(PRECEDENCE[ep][0]), case, ep)
+                except Exception as e:
+                    out.fail_exc("config_listing_returns", e, detail={"form": "%s %s" % (ep, " ".join(argv))})
     if case.get("cwd_is"):
         out.label("cwd_is_also_the_%s_config_directory" % case["cwd_is"])
     reset_state()
